@@ -22,7 +22,7 @@ HARNESSES = {
 BOUNDS = {'quick': {'K1': 2, 'K2': 2, 'K3': 1, 'K4': 1, 'K5': 1, 'K6': 1, 'K7': 1, 'K8': 1, 'K9': 1, 'K10': 1, 'K11': 1},
           'thorough': {'K1': 3, 'K2': 3, 'K3': 2, 'K4': 2, 'K5': 2, 'K6': 2, 'K7': 2, 'K8': 2, 'K9': 2, 'K10': 2, 'K11': 2}}
 PARTS = 16
-CLOSURE = {'quick': ['K1'], 'thorough': ['K1', 'K2', 'K3', 'K4', 'K6', 'K7', 'K8', 'K9', 'K10', 'K11']}      # harnesses searched over *all* interleavings (lv.sched_closure)
+CLOSURE = {'quick': ['K1'], 'thorough': ['K1', 'K2', 'K3', 'K4', 'K6', 'K7', 'K8', 'K9', 'K11']}      # harnesses searched over *all* interleavings (lv.sched_closure)
 
 
 def judge(ex, hname):
